@@ -18,6 +18,7 @@ import (
 	"go/printer"
 	"go/token"
 	"os"
+	"regexp"
 	"strings"
 )
 
@@ -50,6 +51,56 @@ func normalise(body string, n int) []string {
 	return out
 }
 
+var wordRe = map[string]*regexp.Regexp{}
+
+func word(w string) *regexp.Regexp {
+	if wordRe[w] == nil {
+		wordRe[w] = regexp.MustCompile(`\b` + w + `\b(\[)?`)
+	}
+
+	return wordRe[w]
+}
+
+// normDecl normalises a whole declaration (type, constructor, method signature) of the twin of arity n: type
+// parameter / type argument / parameter lists in the canonical order become TYPES / PARAMS, the names EventN / NewN
+// become EVENT / NEW; the parameterless twin is given the shape of the generic ones first.
+func normDecl(text string, n int) []string {
+	ev, nw := "Event", "New"
+	if n > 0 {
+		ev, nw = fmt.Sprintf("Event%d", n), fmt.Sprintf("New%d", n)
+		params := make([]string, n)
+		for i := range params {
+			params[i] = fmt.Sprintf("arg%d T%d", i+1, i+1)
+		}
+		text = strings.ReplaceAll(text, "["+list("T", n)+" any]", "[TYPES any]")
+		text = strings.ReplaceAll(text, "["+list("T", n)+"]", "[TYPES]")
+		text = strings.ReplaceAll(text, "func("+list("T", n)+")", "func(TYPES)")
+		text = strings.ReplaceAll(text, "("+strings.Join(params, ", ")+")", "(PARAMS)")
+	} else {
+		text = strings.ReplaceAll(text, "type Event struct", "type Event[TYPES any] struct")
+		text = strings.ReplaceAll(text, "func New(", "func New[TYPES any](")
+		text = strings.ReplaceAll(text, "func()", "func(TYPES)")
+		text = strings.ReplaceAll(text, "Trigger()", "Trigger(PARAMS)")
+		text = word("Event").ReplaceAllStringFunc(text, func(m string) string {
+			if strings.HasSuffix(m, "[") {
+				return m
+			}
+
+			return m + "[TYPES]"
+		})
+	}
+	text = word(ev).ReplaceAllStringFunc(text, func(m string) string { return "EVENT" + strings.TrimPrefix(m, ev) })
+	text = word(nw).ReplaceAllStringFunc(text, func(m string) string { return "NEW" + strings.TrimPrefix(m, nw) })
+	var out []string
+	for _, l := range strings.Split(text, "\n") {
+		if l = strings.TrimSpace(l); l != "" {
+			out = append(out, l)
+		}
+	}
+
+	return out
+}
+
 func leanList(ls []string) string {
 	q := make([]string, len(ls))
 	for i, l := range ls {
@@ -71,8 +122,32 @@ func main() {
 		os.Exit(1)
 	}
 	bodies := map[string]string{} // "Event3.Trigger" -> printed body
+	decls := map[string]string{}  // "type Event3", "New3", "sig Event3.Trigger" -> printed declaration
+	show := func(n any) string {
+		var b bytes.Buffer
+		if err := printer.Fprint(&b, fset, n); err != nil {
+			fmt.Fprintln(os.Stderr, err)
+			os.Exit(1)
+		}
+
+		return b.String()
+	}
 	for _, d := range file.Decls {
+		if gd, ok := d.(*ast.GenDecl); ok && gd.Tok == token.TYPE {
+			for _, sp := range gd.Specs {
+				if ts, ok := sp.(*ast.TypeSpec); ok {
+					decls["type "+ts.Name.Name] = "type " + show(ts)
+				}
+			}
+
+			continue
+		}
 		fd, ok := d.(*ast.FuncDecl)
+		if ok && fd.Recv == nil && fd.Body != nil {
+			decls[fd.Name.Name] = show(fd)
+
+			continue
+		}
 		if !ok || fd.Recv == nil || len(fd.Recv.List) != 1 || fd.Body == nil {
 			continue
 		}
@@ -96,6 +171,7 @@ func main() {
 			os.Exit(1)
 		}
 		bodies[id.Name+"."+fd.Name.Name] = b.String()
+		decls["sig "+id.Name+"."+fd.Name.Name] = show(&ast.FuncDecl{Recv: fd.Recv, Name: fd.Name, Type: fd.Type})
 	}
 	var out strings.Builder
 	fmt.Fprintf(&out, "/-! GENERATED by harness/c15/twins — normalised bodies of the arity twins of runtime/event/events.go; do not edit. -/\nnamespace %s\n\n", os.Args[2])
@@ -117,6 +193,53 @@ func main() {
 		}
 		fmt.Fprintf(&out, "def twins_%s : List (List String) := [%s]\n\n", m, strings.Join(all, ", "))
 	}
+	// type declaration, constructor, method signatures of every twin
+	var all []string
+	for n := 0; n <= 9; n++ {
+		ev, nw := "Event", "New"
+		if n > 0 {
+			ev, nw = fmt.Sprintf("Event%d", n), fmt.Sprintf("New%d", n)
+		}
+		var lines []string
+		for _, k := range []string{"type " + ev, nw, "sig " + ev + ".Trigger", "sig " + ev + ".LinkTo"} {
+			txt, ok := decls[k]
+			if !ok {
+				fmt.Fprintf(os.Stderr, "missing %s\n", k)
+				os.Exit(1)
+			}
+			lines = append(lines, normDecl(txt, n)...)
+		}
+		fmt.Fprintf(&out, "/-- type %s, %s, signatures of Trigger and LinkTo, normalised -/\ndef twin_Decls_%d : List String :=\n  %s\n\n", ev, nw, n, leanList(lines))
+		all = append(all, fmt.Sprintf("twin_Decls_%d", n))
+	}
+	fmt.Fprintf(&out, "def twins_Decls : List (List String) := [%s]\n\n", strings.Join(all, ", "))
+	// every top-level declaration of the file must belong to one of the ten twins (nothing else lives in events.go)
+	var names []string
+	for _, d := range file.Decls {
+		switch x := d.(type) {
+		case *ast.GenDecl:
+			if x.Tok == token.IMPORT {
+				continue
+			}
+			for _, sp := range x.Specs {
+				switch y := sp.(type) {
+				case *ast.TypeSpec:
+					names = append(names, "type "+y.Name.Name)
+				case *ast.ValueSpec:
+					for _, id := range y.Names {
+						names = append(names, "value "+id.Name)
+					}
+				}
+			}
+		case *ast.FuncDecl:
+			if x.Recv == nil {
+				names = append(names, "func "+x.Name.Name)
+			} else {
+				names = append(names, "method "+strings.TrimSpace(strings.Trim(show(x.Recv.List[0].Type), "*"))+"."+x.Name.Name)
+			}
+		}
+	}
+	fmt.Fprintf(&out, "/-- every top-level declaration of events.go, in source order -/\ndef twins_toplevel : List String :=\n  %s\n\n", leanList(names))
 	fmt.Fprintf(&out, "end %s\n", os.Args[2])
 	if err := os.WriteFile(os.Args[1], []byte(out.String()), 0o644); err != nil {
 		fmt.Fprintln(os.Stderr, err)
